@@ -5,7 +5,7 @@ from .. import ldmsim
 
 ID = "C12"
 ENGINE = "ldm"
-RUNS = {"quick": 6000, "thorough": 90000}
+RUNS = {"quick": 6000, "thorough": 150000}
 RULE_TEXT = ("one run = one seeded history (8-100 ops, up to 260 in the thorough tier) over IF.LDM.3/IF.LDM.4 of a real LDM built by "
              "LDMFactory (back-end Dictionary or TinyDB, maintenance Reactive or Thread, service Reactive or Thread): register/"
              "deregister provider and consumer, add (CAM/VAM/DENM/POI/IVIM dictionaries with and without optional containers, "
